@@ -63,7 +63,10 @@ def dstep (s : DState) (toks : List String) : DState × List String :=
     match ints? [w, h, b] with
     | some [w, h, b] =>
       if s.haveScreen then (s, ["bad-op"]) else
-      ({ s with st := initState w h b 0, haveScreen := true }, ["ok"])
+      -- rfbGetScreen installs the library's default cursor (8x7, hot spot 3,3) until `cursor` replaces it
+      let st0 := initState w h b 0
+      ({ s with st := { st0 with scr := { st0.scr with base := { st0.scr.base with cursor := ⟨8, 7, 3, 3⟩ } } },
+                haveScreen := true }, ["ok"])
     | _ => (s, ["bad-op"])
   | ["cursor", w, h, xh, yh] =>
     match ints? [w, h, xh, yh] with
